@@ -96,7 +96,7 @@ def gen_cases(tier: str, seed: int):
             elif x < 0.95 and fail_at is None:
                 fail_at = len(stmts)
                 stmts.append(r.choice(["SELECT * FROM no_such_table", "INSERT INTO T1 VALUES (1, 'a', 'extra')", "SELECT nocol FROM T1",
-                                       "SELEC 1", "SELECT 1 +", "INSERT INTO T1 VALUES (1,", "SELECT FROM WHERE"]))
+                                       *SYNTAX_ERRORS]))
             else:
                 stmts.append(r.choice(["BEGIN", "COMMIT", "SELECT COUNT(*) FROM T1"]))
         # rendering plan: separators and decorations
@@ -125,7 +125,8 @@ NOP_STMTS = [
 ]
 
 
-SYNTAX_ERRORS = ["SELEC 1", "SELECT 1 +", "INSERT INTO T1 VALUES (1,", "SELECT FROM WHERE"]
+SYNTAX_ERRORS = ["SELEC 1", "SELECT 1 +", "INSERT INTO T1 VALUES (1,", "SELECT FROM WHERE", "UPDATE T1 SET S = 'typo' WHER ID = 1", "DELETE FROM T1 WHER ID = 1",
+                 "DROP TABLE T1 oops", "DELETE FROM T1 WHERE (ID = 1"]
 
 
 def _gen_nop(r: random.Random) -> dict:
@@ -205,6 +206,7 @@ def _run_es(case: dict, env: core.Env, fa: Any, fb: Any) -> None:
         env.cover("twin_rejected", b_exc[1]["cls"])
         return
     # --- A: execute_string
+    pre_a = core.snapshot(fa)
     a_exc = None
     cursors: Any = None
     try:
@@ -251,7 +253,11 @@ def _run_es(case: dict, env: core.Env, fa: Any, fb: Any) -> None:
     env.count("cmp_snapshot")
     sa, sb = core.snapshot(fa), core.snapshot(fb)
     if sa != sb:
-        env.witness(f"C16/final-state-differs/{tag}", f"{text!r}: {core.snap_diff(sb, sa)}"[:1200])
+        how = ""
+        if tag == "with-syntax-error":
+            # told apart: the script was refused as a whole (nothing applied, the known up-front parse) from anything else
+            how = "/nothing-applied" if (sa == pre_a and a_exc is not None and a_exc["cls"] == "ParseError") else "/something-else-applied"
+        env.witness(f"C16/final-state-differs/{tag}{how}", f"{text!r}: {core.snap_diff(sb, sa)}"[:1200])
         return
     ssa, ssb = _session_view(ca), _session_view(cb)
     if ssa != ssb:
